@@ -31,7 +31,7 @@ func init() {
 			"encoding.Buffer (the repository's own in-memory io.WriterAt) holds the map bytes",
 		},
 		Assumptions: []string{
-			"'stops promptly' is checked as: in runs where at least 64 items remain when the failing callback returns, strictly fewer than the remaining items are started afterwards (schedule-proof; anything tighter would encode timing)",
+			"'stops promptly' is checked as: in runs where at least 64 items beyond the pipeline's capacity (items already handed to other goroutines or buffered in channels) remain when the failing callback returns, strictly fewer than the remaining items are started afterwards (schedule-proof; anything tighter would encode timing)",
 		},
 		Rule: "one case = (target API, item count, goroutine count, failing position, failure mode, slow items) under one schedule; non-trivial = the scheduler made >=2 decisions with >=2 runnable tasks; distinct = distinct hash of the (task, site) schedule trace",
 	})
@@ -171,7 +171,7 @@ func c28EachFeature(rc *RC, kind string) {
 	rc.Sim(target, func() {
 		cerr = w.EachFeature(func(f b6.Feature, goroutine int) error { return plan.call() }, &b6.EachFeatureOptions{Goroutines: goroutines})
 	})
-	checkStreamOutcome(rc, target, plan, n, true, cerr)
+	checkStreamOutcome(rc, target, plan, n, 4*goroutines+8, true, cerr)
 }
 
 func c28MemorySource(rc *RC) {
@@ -187,14 +187,14 @@ func c28MemorySource(rc *RC) {
 	rc.Sim(target, func() {
 		cerr = src.Read(ingest.ReadOptions{Goroutines: goroutines}, func(f ingest.Feature, goroutine int) error { return plan.call() }, context.Background())
 	})
-	checkStreamOutcome(rc, target, plan, n, true, cerr)
+	checkStreamOutcome(rc, target, plan, n, 2*goroutines+2, true, cerr)
 }
 
 func c28PBF(rc *RC) {
 	const target = "C28/osm.ReadPBFWithOptions"
 	rc.Phase(target)
 	// many small blocks: alternate element types so that the writer starts a new block often
-	n := rc.Range(1, 220)
+	n := rc.Range(1, 320)
 	var disk chunkWriter
 	w, err := osm.NewWriter(&disk)
 	if err != nil {
@@ -226,7 +226,9 @@ func c28PBF(rc *RC) {
 	rc.Sim(target, func() {
 		cerr = osm.ReadPBFWithOptions(sr, func(e osm.Element, goroutine int) error { return plan.call() }, osm.ReadOptions{Cores: cores})
 	})
-	checkStreamOutcome(rc, target, plan, n, true, cerr)
+	// whole blocks are in flight: one per decoder, up to `cores` buffered in
+	// the channel, and each decoder may win one more after cancellation
+	checkStreamOutcome(rc, target, plan, n, (3*cores+2)*runLen, true, cerr)
 }
 
 func c28ModifiedTags(rc *RC) {
@@ -259,7 +261,7 @@ func c28ModifiedTags(rc *RC) {
 	rc.Sim(target, func() {
 		cerr = o.EachModifiedTag(func(t ingest.ModifiedTag, goroutine int) error { return plan.call() }, &b6.EachFeatureOptions{Goroutines: goroutines})
 	})
-	checkStreamOutcome(rc, target, plan, n, true, cerr)
+	checkStreamOutcome(rc, target, plan, n, 2*goroutines+2, true, cerr)
 }
 
 func c28Parallelise(rc *RC) {
@@ -288,7 +290,7 @@ func c28Parallelise(rc *RC) {
 			cerr = err
 		}
 	})
-	checkStreamOutcome(rc, target, plan, n, true, cerr)
+	checkStreamOutcome(rc, target, plan, n, 2*goroutines+2, true, cerr)
 }
 
 func c28Merged(rc *RC) {
@@ -309,7 +311,7 @@ func c28Merged(rc *RC) {
 	rc.Sim(target, func() {
 		cerr = srcs.Read(ingest.ReadOptions{Goroutines: goroutines}, func(f ingest.Feature, goroutine int) error { return plan.call() }, context.Background())
 	})
-	checkStreamOutcome(rc, target, plan, n, true, cerr)
+	checkStreamOutcome(rc, target, plan, n, 2*goroutines+2*len(srcs)+2, true, cerr)
 }
 
 func c28EachItem(rc *RC) {
@@ -355,11 +357,14 @@ func c28EachItem(rc *RC) {
 		}, goroutines)
 	})
 	// (a call that never returns ends the run as a deadlock, class target+"/deadlock")
-	checkStreamOutcome(rc, target, plan, n, true, err)
+	checkStreamOutcome(rc, target, plan, n, 4*goroutines+8, true, err)
 }
 
 // checkStreamOutcome is the oracle shared by all C28 targets.
-func checkStreamOutcome(rc *RC, target string, plan *failPlan, items int, returned bool, err error) {
+// slack is the number of items the pipeline can legitimately still deliver
+// after the failing callback returned: items already handed to other
+// goroutines or sitting in channel buffers when the failure happened.
+func checkStreamOutcome(rc *RC, target string, plan *failPlan, items int, slack int, returned bool, err error) {
 	if !returned {
 		rc.Fail(target+"/no-return", "the call did not return")
 		return
@@ -381,7 +386,7 @@ func checkStreamOutcome(rc *RC, target string, plan *failPlan, items int, return
 		return
 	}
 	remaining := items - plan.failedAt
-	if remaining >= 64 {
+	if remaining >= 64+slack {
 		rc.Probe("long-tail-checked")
 		if plan.after >= remaining {
 			rc.Fail(target+"/not-prompt", "after callback %d failed, all %d remaining items were still delivered (%d callbacks started after the failure returned): the enumeration ran to the end of its input instead of stopping", plan.at, remaining, plan.after)
